@@ -9,28 +9,28 @@ import (
 // histOpts steers the shared history generator.
 type histOpts struct {
 	simple, extended, copy bool
-	errs         bool // parsers / statement functions that fail
-	abuse        bool // wrong-arity rows, unencodable rows, calls after completion
-	unknown      bool // unknown message types
-	oversized    bool // messages beyond the limit (requires a small Limit)
-	stray        bool // COPY messages outside COPY mode
-	decorated    bool // fully decorated errors (C02) instead of plain ones
-	rich         bool // date/time column types too
-	binary       bool // binary result formats
-	params       bool // statements with declared parameters, Bind values
-	typedNull    bool // NULL written as typed nil pointers / invalid pgtype values
-	unknownNames bool // refer to statement / portal names never defined
-	closes       bool // Close messages
-	multi        bool // several statements per simple query
-	terminate    bool // may end with Terminate
-	maxUnits     int
-	names        int // size of the name pools
-	between      bool // traffic between Bind and Execute
-	bigValues    bool // parameter values that cross the 4 KiB allocation granule
-	retain       bool // statement functions retain their parameters (C18)
-	sizes        bool // messages with body sizes around the 4 KiB granule and the limit
-	tails        bool // grammar-external surplus bytes inside messages (C03)
-	prefix       string // program-key prefix (distinct per connection in multi-connection cases)
+	errs                   bool // parsers / statement functions that fail
+	abuse                  bool // wrong-arity rows, unencodable rows, calls after completion
+	unknown                bool // unknown message types
+	oversized              bool // messages beyond the limit (requires a small Limit)
+	stray                  bool // COPY messages outside COPY mode
+	decorated              bool // fully decorated errors (C02) instead of plain ones
+	rich                   bool // date/time column types too
+	binary                 bool // binary result formats
+	params                 bool // statements with declared parameters, Bind values
+	typedNull              bool // NULL written as typed nil pointers / invalid pgtype values
+	unknownNames           bool // refer to statement / portal names never defined
+	closes                 bool // Close messages
+	multi                  bool // several statements per simple query
+	terminate              bool // may end with Terminate
+	maxUnits               int
+	names                  int    // size of the name pools
+	between                bool   // traffic between Bind and Execute
+	bigValues              bool   // parameter values that cross the 4 KiB allocation granule
+	retain                 bool   // statement functions retain their parameters (C18)
+	sizes                  bool   // messages with body sizes around the 4 KiB granule and the limit
+	tails                  bool   // grammar-external surplus bytes inside messages (C03)
+	prefix                 string // program-key prefix (distinct per connection in multi-connection cases)
 }
 
 type histGen struct {
